@@ -67,6 +67,7 @@ def main():
             print('  %s exit %d  %s' % (c, rc, (viol[0][:80] + ' … ' + detail[:120]) if viol else ''))
     finally:
         sh('git -C %s checkout -- .' % REPO)
+        sh('tools/restore_extracted.sh', cwd=V)      # the extracted Lean files must describe the clean tree again
     meta['ran'] = 'applied to /repo with `git -C /repo apply`, ran `./check <id> quick` for %s, then `git -C /repo checkout -- .`' % ', '.join(checks)
     meta['detected_by'] = [c for c, r in res.items() if r['exit'] == 1]
     meta['missed_by'] = [c for c, r in res.items() if r['exit'] == 0]
